@@ -24,6 +24,7 @@ import BRV.Proofs.RepoExample
 import BRV.Proofs.ForestStep
 import BRV.Proofs.ForestClean
 import BRV.Proofs.ForestTrim
+import BRV.Proofs.LoadIds
 
 namespace BRV.Repo
 
@@ -832,5 +833,29 @@ theorem C01_forest_ops (ops : List FOp) : ∀ (r : Repo), ForestOK r → TipMax 
       obtain ⟨h1, h2, h3⟩ := markNotInvalid_frame r id
       exact ih _ (forestOK_of_frame r _ hf h1 h2)
         (tipMax_of_frame r _ hm h2 h3 (fun x _ => by show lastWork (markNotInvalid r id).arena x = _; rw [h1])) hrest
+
+/-- the identities (`IdOK`: no hash held twice, complete height maps) survive every forest history. -/
+theorem idOK_forest_ops (ops : List FOp) : ∀ (r : Repo), ForestOK r → TipMax r → IdOK r → FHist r ops →
+    ForestOK (ops.foldl applyF r) ∧ IdOK (ops.foldl applyF r) := by
+  induction ops with
+  | nil => intro r hf _ hi _; exact ⟨hf, hi⟩
+  | cons op rest ih =>
+    intro r hf hm hi hh
+    obtain ⟨hop, hrest⟩ := hh
+    have hstep := C01_forest_ops [op] r hf hm ⟨hop, trivial⟩
+    simp only [List.foldl_cons, List.foldl_nil] at hstep
+    simp only [List.foldl_cons]
+    refine ih _ hstep.1 hstep.2 ?_ hrest
+    cases op with
+    | submit h ok => exact idOK_processHeader_clean r h ok hf hi hop.2
+    | clean d => exact idOK_cleanWith r hf hi hop.2 d hop.1
+    | save =>
+      obtain ⟨h1, h2, _⟩ := save_frame_rootFirst r hop
+      exact idOK_of_frame r _ hi h1 h2
+    | mark id => exact idOK_markInvalid r hf hi id
+    | unmark id =>
+      obtain ⟨h1, h2, _⟩ := markNotInvalid_frame r id
+      exact idOK_of_frame r _ hi h1 h2
+
 
 end BRV.Repo
